@@ -15,7 +15,7 @@ from ..cfg import CFG, EXIT
 from ..core import Ctx
 from ..model import AnalysisError, FuncInfo, dotted, kwarg, norm, walk_no_nested
 from ..zones import ZUnsupported, box_contains, nonneg, pair_domain, range_bounds, to_lin
-from .common import assigned_value, conditions_at, enclosing, expand_locals, flat_subscript, is_cmp, stores_to, subst_views, view_env
+from .common import assigned_value, conditions_at, enclosing, expand_locals, flat_nodes, flat_subscript, is_cmp, stores_to, subst_views, view_env
 
 CAND = "AbstractDissimilarity._get_all_valid_alignments"
 PAIRK = "AbstractDissimilarity._compute_alignment_disorders"
@@ -745,20 +745,26 @@ def check_candidates(ctx: Ctx, rules: Dict[str, str]):
     _check_final(ctx, k, f, ML, c2n_name, n_name)
 
 
-def _index_nodes(t: ast.Subscript, base: str):
-    """(row, col) index nodes of `base[r, c]` / `base[r][c]`, else None"""
-    if isinstance(t.slice, ast.Tuple) and len(t.slice.elts) == 2 and norm(t.value) == base:
-        return t.slice.elts[0], t.slice.elts[1]
-    if isinstance(t.value, ast.Subscript) and norm(t.value.value) == base and not isinstance(t.value.slice, ast.Tuple) and not isinstance(t.slice, ast.Tuple):
-        return t.value.slice, t.slice
+def _index_nodes(t: ast.Subscript, base: str, venv=None):
+    """(row, col) index nodes of `base[r, c]` / `base[r][c]` / `row = base[r]; row[c]`, else None"""
+    fl = flat_nodes(t, venv)
+    if fl is not None and fl[0] == base and len(fl[1]) == 2:
+        return fl[1][0], fl[1][1]
     return None
 
 
 def _check_matrices(ctx, k: K, f: FuncInfo, pre: str, p_units, p_dmat, p_delta, n_name, sizes_name, facts):
     body = f.node.body
     outer = None
+    venv = view_env(f.node)
+
+    def stores_into_pre(x) -> bool:
+        if not (isinstance(x, ast.Assign) and isinstance(x.targets[0], ast.Subscript)):
+            return False
+        fl = flat_subscript(x.targets[0], venv)
+        return fl is not None and fl[0] == pre and len(fl[1]) == 2
     for s in body:
-        if isinstance(s, ast.For) and any(isinstance(x, ast.Assign) and norm(x.targets[0]).startswith(pre + "[") for x in ast.walk(s)):
+        if isinstance(s, ast.For) and any(stores_into_pre(x) for x in ast.walk(s)):
             outer = s
     if outer is None or not [x for x in outer.body if isinstance(x, ast.For)]:
         return k.undecided("matrix-cover", None, "construction of the pair matrices not found")
@@ -769,19 +775,20 @@ def _check_matrices(ctx, k: K, f: FuncInfo, pre: str, p_units, p_dmat, p_delta, 
     except ZUnsupported as e:
         dom = f"partial:{e}"
     a, b = Pa.target.id, Pb.target.id
-    st = [x for x in Pb.body if isinstance(x, ast.Assign) and norm(x.targets[0]) in (f"{pre}[{a}][{b}]", f"{pre}[{b}][{a}]")]
-    same_orient = bool(st) and facts and (
-        (norm(st[0].targets[0]) == f"{pre}[{a}][{b}]") == ((facts["first"], facts["second"]) == (facts["outer"], facts["inner"]) ) or dom != "pairs")
+    def pre_cell(x):
+        fl = flat_subscript(x.targets[0], venv) if isinstance(x, ast.Assign) and isinstance(x.targets[0], ast.Subscript) else None
+        return fl[1] if fl is not None and fl[0] == pre and sorted(fl[1]) == sorted([a, b]) else None
+    st = [x for x in Pb.body if pre_cell(x) is not None]
     # orientation: matrix rows belong to the annotator used as FIRST index
     if not st:
         return k.undecided("matrix-cover", Pb, "store of the pair matrix into the nested list not found")
-    first_idx = a if norm(st[0].targets[0]) == f"{pre}[{a}][{b}]" else b
+    first_idx = pre_cell(st[0])[0]
     second_idx = b if first_idx == a else a
     mat = norm(st[0].value)
     k.check("matrix-domain", dom == "pairs", Pa, "one matrix per unordered annotator pair", f"pair matrices are built over `{dom}`")
     # local sizes
     env = {}
-    for s in Pb.body:
+    for s in list(Pa.body) + list(Pb.body):          # sizes may be read into locals at either loop level
         if isinstance(s, ast.Assign) and isinstance(s.targets[0], ast.Tuple) and isinstance(s.value, ast.Tuple):
             for tt, vv in zip(s.targets[0].elts, s.value.elts):
                 env[norm(tt)] = norm(vv)
@@ -847,8 +854,8 @@ def _check_matrices(ctx, k: K, f: FuncInfo, pre: str, p_units, p_dmat, p_delta, 
                 if lo2 is None or hi2 is None:
                     continue
                 visit(s.body, dict(loops, **{s.target.id: (lo2, hi2)}))
-            elif isinstance(s, ast.Assign) and isinstance(s.targets[0], ast.Subscript) and _index_nodes(s.targets[0], mat) is not None:
-                r, c = _index_nodes(s.targets[0], mat)
+            elif isinstance(s, ast.Assign) and isinstance(s.targets[0], ast.Subscript) and _index_nodes(s.targets[0], mat, venv) is not None:
+                r, c = _index_nodes(s.targets[0], mat, venv)
                 iv = []
                 for axis, e in enumerate((r, c)):
                     if isinstance(e, ast.Name) and e.id in loops:
@@ -884,7 +891,7 @@ def _check_matrices(ctx, k: K, f: FuncInfo, pre: str, p_units, p_dmat, p_delta, 
         w = cover[-1]
         val = w[2].value
         if cname == "real x real":
-            val = expand_locals(f.node, val, skip=(n_name,))
+            val = subst_views(expand_locals(f.node, val, skip=(n_name,)), venv)
             okv = isinstance(val, ast.Call) and norm(val.func) == p_dmat and len(val.args) == 2 and \
                 norm(val.args[0]) == f"{p_units}[{first_idx}][{w[0][2]}]" and norm(val.args[1]) == f"{p_units}[{second_idx}][{w[1][2]}]"
             if not okv:
